@@ -621,6 +621,10 @@ impl TDigestMut {
             check_finite(value, "buffered_value mean")?;
             buffer.push(value);
         }
+        // every buffered value weighs one: the total must fit as well
+        if centroids_weight.checked_add(buffer.len() as u64).is_none() {
+            return Err(Error::deserial("total weight overflows u64"));
+        }
         Ok(TDigestMut::make(
             k,
             reverse_merge,
